@@ -43,6 +43,10 @@ def obligations(res):
     ]
 
 
+def st_name(key):
+    return key[1]
+
+
 def tree_list(ts):
     return coq_list([export.export_tree(t) for t in ts])
 
@@ -70,27 +74,34 @@ def gen_history(rng, res):
     si = rng.randrange(len(SPECS))
     spec, words = SPECS[si]
     starts = STARTS.get(si, ["<start>"])
+    from fandango.language.grammar import ParsingMode
     keys = []
     for _ in range(rng.randint(1, 3)):
-        keys.append((rng.choice(words), rng.choice(starts)))
+        # a key is (word, start symbol, parsing mode); prefix mode only on grammars without left recursion (C06 finding)
+        mode = ParsingMode.INCOMPLETE if (si != 1 and rng.random() < 0.35) else ParsingMode.COMPLETE
+        keys.append((rng.choice(words), rng.choice(starts), mode))
+    if rng.random() < 0.5 and si != 1:
+        # the same word under the same start symbol in both modes
+        w0, st0, m0 = keys[0]
+        keys.append((w0, st0, ParsingMode.COMPLETE if m0 == ParsingMode.INCOMPLETE else ParsingMode.INCOMPLETE))
     fan = Fandango(spec)
     g = fan.grammar
     hist_terms, hist_txt = [], []
     for _ in range(rng.randint(1, 12)):
         k = rng.randrange(len(keys))
-        w, st = keys[k]
+        w, st, md = keys[k]
         r = rng.random()
         if r < 0.3:
-            ans = list(g.parse_forest(w, st))
+            ans = list(g.parse_forest(w, st, mode=md))
             term = f"(ParseAll {coq_nat(k)}, {tree_list(ans)})"
-            txt = f"all({w!r},{st})"
+            txt = f"all({w!r},{st},{md.name})"
             if rng.random() < 0.4:
                 for t in ans:
                     mutate_tree(rng, t)
                 txt += "+mutate-after"
         elif r < 0.45:
             # consume to the end, mutating every tree as soon as it is handed out
-            ans_terms, gen = [], g.parse_forest(w, st, include_controlflow=rng.random() < 0.3)
+            ans_terms, gen = [], g.parse_forest(w, st, mode=md, include_controlflow=rng.random() < 0.3)
             ctl = gen.gi_frame.f_locals.get("include_controlflow", False) if gen.gi_frame else False
             out = []
             for t in gen:
@@ -101,25 +112,25 @@ def gen_history(rng, res):
                 term, txt = "(Fuzz, [])", f"all-controlflow-mutating({w!r},{st})"
             else:
                 term = f"(ParseAll {coq_nat(k)}, {coq_list(out)})"
-                txt = f"all-mutating-during-iteration({w!r},{st})"
+                txt = f"all-mutating-during-iteration({w!r},{st},{md.name})"
         elif r < 0.65:
             n = rng.randint(1, 3)
-            gen = g.parse_forest(w, st)
+            gen = g.parse_forest(w, st, mode=md)
             ans = []
             for t in gen:
                 ans.append(t)
                 if len(ans) >= n:
                     break
             term = f"(ParseSome {coq_nat(k)} {coq_nat(n)}, {tree_list(ans)})"
-            txt = f"some{n}({w!r},{st})"
+            txt = f"some{n}({w!r},{st},{md.name})"
             if rng.random() < 0.3:
                 for t in ans:
                     mutate_tree(rng, t)
         elif r < 0.8:
-            t = g.parse(w, st)
+            t = g.parse(w, st, mode=md)
             term = f"(ParseSome {coq_nat(k)} 1%nat, {tree_list([t] if t is not None else [])})"
-            txt = f"parse({w!r},{st})"
-        elif r < 0.9 and st == "<start>":
+            txt = f"parse({w!r},{st},{md.name})"
+        elif r < 0.9 and st == "<start>" and md.name == "COMPLETE":
             ans = list(fan.parse(w))
             term = f"(ParseAll {coq_nat(k)}, {tree_list(ans)})"
             txt = f"api.parse({w!r})"
@@ -133,17 +144,33 @@ def gen_history(rng, res):
         hist_terms.append(term)
         hist_txt.append(txt)
     # final complete requests for every key
-    for k, (w, st) in enumerate(keys):
-        ans = list(g.parse_forest(w, st))
+    for k, (w, st, md) in enumerate(keys):
+        ans = list(g.parse_forest(w, st, mode=md))
         hist_terms.append(f"(ParseAll {coq_nat(k)}, {tree_list(ans)})")
-        hist_txt.append(f"final-all({w!r},{st})")
+        hist_txt.append(f"final-all({w!r},{st},{md.name})")
     # the stateless answers: a brand-new grammar object per key
     fresh = []
-    for (w, st) in keys:
+    for (w, st, md) in keys:
         g2 = Fandango(spec).grammar
-        fresh.append(tree_list(list(g2.parse_forest(w, st))))
+        fresh.append(tree_list(list(g2.parse_forest(w, st, mode=md))))
+    # python-side rendering of the same judgement (for the report only): which request differs from the fresh forest
+    import re as _re
+    first_diff = None
+    for term, txt in zip(hist_terms, hist_txt):
+        m = _re.match(r"\(Parse(All|Some) (\d+)%nat(?: (\d+)%nat)?, (.*)\)$", term, flags=_re.S)
+        if not m or first_diff is not None:
+            continue
+        k = int(m.group(2))
+        want = fresh[k]
+        got = m.group(4)
+        if m.group(1) == "All":
+            if got != want:
+                first_diff = txt + f" (answer has {got.count(chr(34) + st_name(keys[k]) + chr(34))} trees, a fresh object yields {want.count(chr(34) + st_name(keys[k]) + chr(34))})"
+        else:
+            if not want.startswith(got[:-1]):
+                first_diff = txt + " (not an initial part of the fresh forest)"
     amb = any("(" in f and f.count("Node \"<start>\"") > 1 for f in fresh)
-    return f"({coq_list(fresh)}, {coq_list(hist_terms)})", {"spec": spec, "keys": keys, "history": hist_txt}, amb
+    return f"({coq_list(fresh)}, {coq_list(hist_terms)})", {"spec": spec, "keys": [(w, st, md.name) for w, st, md in keys], "history": hist_txt, "first_complete_request_differing_from_fresh": first_diff}, amb
 
 
 def worker(args):
